@@ -48,6 +48,8 @@ theorem same_transfer (w : World) (a b : Addr) (v : Nat) : SameLogCtx w (w.trans
 theorem same_suicide (w : World) (a : Addr) : SameLogCtx w (w.suicide a) := by
   unfold suicide; split <;> exact ⟨rfl, rfl, rfl⟩
 theorem same_setTransient (w : World) (a : Addr) (k v : Nat) : SameLogCtx w (w.setTransient a k v) := ⟨rfl, rfl, rfl⟩
+theorem same_selfdestructRefund (w : World) (a : Addr) : SameLogCtx w (w.selfdestructRefund a) := by
+  unfold selfdestructRefund; split <;> exact ⟨rfl, rfl, rfl⟩
 theorem same_addAccess (w : World) (a : Addr) : SameLogCtx w (w.addAccess a) := by
   unfold addAccess; split <;> exact ⟨rfl, rfl, rfl⟩
 
@@ -245,7 +247,17 @@ theorem stakeEffect_same (env : Env) (self : Addr) (amount : Nat) (w : World) :
     SameLogCtx w (stakeEffect env self amount w) := by
   unfold stakeEffect
   split
-  · exact World.same_subBalance _ _ _
+  · have h := World.same_subBalance w self (oneRPG * amount)
+    exact ⟨h.1, h.2.1, h.2.2⟩
+  · exact SameLogCtx.rfl' w
+
+theorem unstakeEffect_same (env : Env) (self : Addr) (amount : Option Nat) (w : World) :
+    SameLogCtx w (unstakeEffect env self amount w) := by
+  unfold unstakeEffect
+  split
+  · split
+    · exact ⟨rfl, rfl, rfl⟩
+    · split <;> exact ⟨rfl, rfl, rfl⟩
   · exact SameLogCtx.rfl' w
 
 /-- Induction over the frame tree: whatever a frame body does, the world it leaves extends the
@@ -277,7 +289,8 @@ theorem run_extend (env : Env) (hrv : RevertRestoresObs env.rv) (hkc : RevertKee
     intro depth ro self w clogs tr
     rw [run]; split
     · exact LogsExtend.refl w
-    · exact LogsExtend.of_same ((World.same_addBalance _ _ _).trans (World.same_suicide _ _))
+    · exact LogsExtend.of_same (((World.same_selfdestructRefund _ _).trans (World.same_addBalance _ _ _)).trans
+        (World.same_suicide _ _))
   | call id kind target value body rest ihb ihr =>
     intro depth ro self w clogs tr
     rw [run]; split
@@ -308,8 +321,15 @@ theorem run_extend (env : Env) (hrv : RevertRestoresObs env.rv) (hkc : RevertKee
     intro depth ro self w clogs tr
     rw [run]; split
     · exact LogsExtend.refl w
-    · exact ih _ _ _ _ _ _
+    · exact (LogsExtend.of_same (unstakeEffect_same _ _ _ _)).trans (ih _ _ _ _ _ _)
   | unstakeall rest ih =>
+    intro depth ro self w clogs tr
+    rw [run]; split
+    · exact LogsExtend.refl w
+    · split
+      · exact LogsExtend.refl w
+      · exact (LogsExtend.of_same (unstakeEffect_same _ _ _ _)).trans (ih _ _ _ _ _ _)
+  | stakenum a rest ih =>
     intro depth ro self w clogs tr
     rw [run]; split
     · exact LogsExtend.refl w
